@@ -29,6 +29,7 @@ struct ItemProg {
   std::vector<int> pre;  // children pushed before the last acquire
   std::vector<int> post; // children pushed after the commit point
   bool vabort = false;   // ctx.abort() on first attempt (after last acquire)
+  int vabort_times = 1;  // ... on the first vabort_times attempts (back-off loops)
   int prio    = 0;       // priority (OBIM) / level
 };
 
@@ -77,7 +78,7 @@ inline void fe_operator(int item, Ctx& ctx, bool cd) {
     ctx.push(c);
   if (n)
     galois::runtime::acquire(&fe.obj[p.acq[n - 1]], galois::MethodFlag::WRITE);
-  if (cd && p.vabort && att == 1) {
+  if (cd && p.vabort && att <= p.vabort_times) {
     vf_log(K_VABORT, item, 0);
     ctx.abort();
   }
@@ -197,6 +198,18 @@ inline std::vector<Program> fe_programs() {
     p.ninit = 2;
     p.items = {item({0}, {2}, {3}, true, 0), item({0}, {}, {}, false, 0),
                item({}, {}, {}, false, 1), item({0}, {}, {}, false, 1)};
+    v.push_back(p);
+  }
+  {
+    // one item that backs off (voluntary abort) several times while every
+    // other thread is idle, then creates work: the abort/retry path must keep
+    // the loop alive through several idle token rounds
+    Program p;
+    p.name  = "abort-many";
+    p.ninit = 1;
+    p.items = {item({0}, {}, {1, 2}, true, 0), item({0}, {}, {}, false, 1),
+               item({}, {}, {}, false, 1)};
+    p.items[0].vabort_times = 4;
     v.push_back(p);
   }
   {
